@@ -14,8 +14,8 @@ THEOREMS = ['Fsic.C06.' + n for n in [
     'loop_at', 'preexisting_nonfinite_rejected', 'preexisting_nonfinite_unchanged', 'policy_raise', 'policy_skip',
     'solve_moves_on', 'policy_invalid', 'policy_continue_solved', 'policy_continue_failed',
     'policy_continue_failed_at_max', 'never_judged_from_nonfinite', 'eval_exception', 'before_exception',
-    'after_exception', 'status_alphabet', 'solved_iff_dot', 'runStmts_append', 'catch_first_no_store',
-    'no_catch_stores']]
+    'after_exception', 'status_alphabet', 'solved_iff_dot', 'runStmts_append', 'catch_first_no_store', 'warning_statement_not_stored',
+    'no_catch_stores', 'policy_statuses_sound']]
 RULE = ('every placement of a fault kind (NaN, +inf, -inf, warning-raising statement, Python exception) at every pass '
         'position up to L, the other passes drawn from {far, close}, crossed with errors in {raise, skip, ignore, '
         'replace, <invalid>} x failures x catch_first_error x (min_iter, max_iter) x pre-existing non-finite values '
